@@ -158,6 +158,85 @@ func seqBody(g lstore.Geometry, depth int) func() {
 	}
 }
 
+// twoNamesBody: hierarchical store, the same blob T uploaded under two sibling instance names x and y
+// (two copies, one canonical entry, two lookup entries), pushed into an old block with room left in the
+// newest block; then every sequence over {block-sized upload, touch via x, touch via y, partial upload}.
+// A touch through one name refreshes the canonical copy and that name's entry only, so the other name's
+// entry lags behind; the survival bound is tracked per name.
+func twoNamesBody(g lstore.Geometry, depth int, getX, getY bool) func() {
+	return func() {
+		med := lstore.NewMedia(g)
+		s := lstore.Open(g, med)
+		content := []byte("T-0")
+		T := map[string]lstore.Obj{"x": lstore.CASObj("T@x", "x", content), "y": lstore.CASObj("T@y", "y", content)}
+		fill := 0
+		put := func(size int) {
+			fill++
+			o := lstore.CASObj("F", "f", []byte(fmt.Sprintf("F%07d", fill))[:size])
+			err := s.PutOK(o.Digest, o.Content)
+			vsched.Obs("F%d=%s", size, status.Code(err))
+		}
+		for _, n := range []string{"x", "y"} {
+			if err := s.PutOK(T[n].Digest, T[n].Content); err != nil {
+				vsched.HarnessFail("prefill Put(T@%s): %v", n, err)
+			}
+		}
+		put(8)
+		put(5)
+		tr := map[string]*tracker{"x": {}, "y": {}}
+		touch := func(n string, get bool) {
+			if get {
+				d, err := s.Get(T[n].Digest)
+				vsched.Obs("G%s=%s", n, status.Code(err))
+				if err == nil {
+					if !bytes.Equal(d, content) {
+						failf("wrong-bytes", "Get(T@%s) = %q", n, d)
+					}
+					tr[n].touched, tr[n].at = true, s.Alloc.NewBlocks
+					repeat(s, T[n], "Get")
+				} else if status.Code(err) != codes.NotFound {
+					failf("get-error-"+status.Code(err).String(), "Get(T@%s) failed: %v", n, err)
+				}
+				return
+			}
+			miss, err := s.FindMissing(T[n].Digest)
+			vsched.Obs("FM%s=%s:%v", n, status.Code(err), miss[T[n].Digest.String()])
+			if err != nil {
+				failf("findmissing-error-"+status.Code(err).String(), "FindMissing(T@%s) failed: %v", n, err)
+			}
+			if !miss[T[n].Digest.String()] {
+				tr[n].touched, tr[n].at = true, s.Alloc.NewBlocks
+				repeat(s, T[n], "FindMissing")
+			}
+		}
+		for i := 0; i < depth; i++ {
+			switch vsched.ChooseFree("choice", 4) {
+			case 0:
+				put(8)
+			case 1:
+				touch("x", getX)
+			case 2:
+				touch("y", getY)
+			case 3:
+				put(5)
+			}
+			for _, n := range []string{"x", "y"} {
+				tr[n].check(s, T[n], fmt.Sprintf("after operation %d, instance name %s", i, n))
+			}
+		}
+		for _, n := range []string{"x", "y"} {
+			t := tr[n]
+			if t.touched && !t.excluded && s.Alloc.NewBlocks < t.at+s.Geo.Old+1 {
+				d, err := s.Get(T[n].Digest)
+				if err != nil || !bytes.Equal(d, content) {
+					failf("touched-object-unreadable", "final Get(T@%s) = %q, %v although only %d blocks were allocated since the touch through that name (old_blocks=%d)", n, d, err, s.Alloc.NewBlocks-t.at, s.Geo.Old)
+				}
+				break // this Get may itself refresh and allocate
+			}
+		}
+	}
+}
+
 // repeat checks that immediately repeating the touch writes nothing.
 func repeat(s *lstore.Store, T lstore.Obj, what string) {
 	w0 := s.Media.Data.Writes
@@ -315,6 +394,20 @@ func main() {
 			}
 		}
 	}
+	d2 := ev.Pick(r, 7, 9)
+	mc.GroupSpace["two-names"] = fmt.Sprintf("hierarchical store, blob T uploaded under sibling instance names x and y, then one block-sized and one partial upload (T old, room in the newest block); per geometry (old,current,new) in {2,3,4}x{1,2}x{1,2} x touch kinds {FindMissing,Get}^2: all 4^%d sequences over {block-sized upload, touch via x, touch via y, partial upload}; survival bound tracked per instance name", d2)
+	for o := 2; o <= 4; o++ {
+		for c := 1; c <= 2; c++ {
+			for n := 1; n <= 2; n++ {
+				for k := 0; k < 4; k++ {
+					g := base
+					g.Old, g.Current, g.New, g.Hierarchical = o, c, n, true
+					scs = append(scs, mc.Scenario{Name: fmt.Sprintf("two-names/o%dc%dn%d-k%d", o, c, n, k), Group: "two-names", Bound: 0, Body: twoNamesBody(g, d2, k&1 != 0, k&2 != 0)})
+				}
+			}
+		}
+	}
+	mc.GroupBudget["two-names"] = time.Duration(ev.Pick(r, 150, 1200)) * time.Second
 	mc.GroupBudget["seq"] = time.Duration(ev.Pick(r, 150, 1200)) * time.Second
 	for _, hier := range []bool{false, true} {
 		for _, o := range []int{1, 2} {
